@@ -37,4 +37,7 @@ struct opt_byte { _Bool has; byte val; };
 
 /* geometry.h: struct Geometry { int cylinders; int heads; sector_count_type sectors; optional<Encoding> encoding; } */
 struct Geometry { int cylinders; int heads; sector_count_type sectors; };
+
+/* opus_cat.h: struct OpusDiscCatalogue::VolumeLocation { int catalog_location_; unsigned long start_sector_, len_; char volume_; } */
+struct VolumeLocation { int catalog_location_; unsigned long start_sector_; unsigned long len_; char volume_; };
 #endif
